@@ -175,12 +175,15 @@ Qed.
 Lemma zero_fee_not_taxable spot : dgtb (dmul (g 0) (g spot)) dzero = false.
 Proof. vm_compute. reflexivity. Qed.
 
+(** a taxable transfer has a positive fee.  The script covers both shapes of IntraTransaction.is_taxable (fee > 0 on the
+    grid; fiat value of the fee > 0 at 13 decimals), so that the well-formedness of the matcher input does not depend on
+    which of the two the source has *)
 Lemma mk_intra_taxable_pos r a :
-  mk_intra r = Ok a -> dgtb (x_fiat_fee a) dzero = true -> 0 < x_crypto_fee a.
+  mk_intra r = Ok a -> intra_is_taxable a = true -> 0 < x_crypto_fee a.
 Proof.
   intros H HT. destruct (mk_intra_fee _ _ H) as [Hge [spot Hf]].
   destruct (Z.eq_dec (x_crypto_fee a) 0) as [Hz|Hnz]; [|lia].
-  rewrite Hf, Hz, zero_fee_not_taxable in HT. discriminate HT.
+  exfalso. unfold intra_is_taxable in HT. rewrite ?Hf, Hz in HT. rewrite ?zero_fee_not_taxable in HT. discriminate HT.
 Qed.
 
 (** facts about the generated predicates, each by computation *)
